@@ -370,8 +370,9 @@ func ValidateRequestBody(ctx context.Context, input *RequestValidationInput, req
 	}
 
 	if defaultsSet {
-		var err error
-		if data, err = encodeBody(value, mediaType); err != nil {
+		// data is what the body installed above reads from: it changes only once the rewrite is there
+		encoded, err := encodeBody(value, mediaType)
+		if err != nil {
 			return &RequestError{
 				Input:       input,
 				RequestBody: requestBody,
@@ -379,6 +380,7 @@ func ValidateRequestBody(ctx context.Context, input *RequestValidationInput, req
 				Err:         err,
 			}
 		}
+		data = encoded
 		// Put the data back into the input
 		if req.Body != nil {
 			req.Body.Close()
